@@ -555,7 +555,7 @@ Lemma show_dns_indep e : dns_ok e = true -> show_dns cx1 e = show_dns cx2 e.
 Proof.
   intros H. unfold dns_ok in H. split_ok. unfold show_dns.
   rewrite (rd_owned cx1 cx2 (d_name e)), (show_recs_indep (d_a e)), (show_recs_indep (d_aaaa e)),
-          (show_recs_indep (d_cname e)) by auto. reflexivity.
+          (show_recs_indep (d_cname e)), (show_recs_indep (d_ptr e)) by auto. reflexivity.
 Qed.
 
 End Dump.
@@ -772,17 +772,12 @@ Lemma dns_rr_ok acc rr :
   dns_ok (fst acc) = true -> dns_rr cx1 acc rr = dns_rr cx2 acc rr /\ dns_ok (fst (dns_rr cx1 acc rr)) = true.
 Proof.
   intros H. pose proof H as H0. unfold dns_ok in H0. split_ok. unfold dns_rr. rewrite E.
-  destruct rr as [name off|name off|name cname];
-    rewrite ?(join_labels_indep cx1 cx2) by auto; rewrite !(retain_indep _ cx1 cx2) by auto.
-  - match goal with |- context [add_rec ?r ?l] => pose proof (add_rec_ok r l) as Ha; destruct (add_rec r l) as [l' u] end.
-    split; auto. cbn [fst] in *. unfold dns_ok; cbn [d_name d_a d_aaaa d_cname]. and_ok; auto.
-    all: try (apply Ha; auto; unfold rec_ok; cbn [dr_name dr_val]; rewrite !retain_owned; reflexivity).
-  - match goal with |- context [add_rec ?r ?l] => pose proof (add_rec_ok r l) as Ha; destruct (add_rec r l) as [l' u] end.
-    split; auto. cbn [fst] in *. unfold dns_ok; cbn [d_name d_a d_aaaa d_cname]. and_ok; auto.
-    all: try (apply Ha; auto; unfold rec_ok; cbn [dr_name dr_val]; rewrite !retain_owned; reflexivity).
-  - match goal with |- context [add_rec ?r ?l] => pose proof (add_rec_ok r l) as Ha; destruct (add_rec r l) as [l' u] end.
-    split; auto. cbn [fst] in *. unfold dns_ok; cbn [d_name d_a d_aaaa d_cname]. and_ok; auto.
-    all: try (apply Ha; auto; unfold rec_ok; cbn [dr_name dr_val]; rewrite !retain_owned; reflexivity).
+  destruct rr as [name off|name off|name cname|ptr ip];
+    rewrite ?(join_labels_indep cx1 cx2) by auto; rewrite ?(retain_indep _ cx1 cx2) by auto;
+    try (destruct (is_nil ip); [split; [reflexivity|exact H]|]);
+    match goal with |- context [add_rec ?r ?l] => pose proof (add_rec_ok r l) as Ha; destruct (add_rec r l) as [l' u] end;
+    (split; [reflexivity|]); cbn [fst] in *; unfold dns_ok; cbn [d_name d_a d_aaaa d_cname d_ptr]; and_ok; auto;
+    try (apply Ha; auto; unfold rec_ok; cbn [dr_name dr_val]; rewrite !retain_owned; reflexivity).
 Qed.
 
 Lemma fold_dns_rr_ok rrs : forall acc,
@@ -802,7 +797,7 @@ Proof.
   match goal with |- context [fold_left (dns_rr cx1) _ (?e, false)] => set (e0 := e) end.
   assert (O0 : dns_ok e0 = true).
   { unfold e0. destruct (find _ (st_dns st)) eqn:F; [eapply find_some_forallb; eauto|].
-    unfold dns_ok; cbn [d_name d_a d_aaaa d_cname]. rewrite retain_owned. reflexivity. }
+    unfold dns_ok; cbn [d_name d_a d_aaaa d_cname d_ptr]. rewrite retain_owned. reflexivity. }
   destruct (fold_dns_rr_ok (dq_rrs m) (e0, false) O0) as [Ef Of]. rewrite Ef in *.
   destruct (fold_left (dns_rr cx2) (dq_rrs m) (e0, false)) as [e1 updated]. cbn [fst] in *.
   destruct updated; auto. split; auto. apply set_dns_no_ref; auto. apply forallb_snoc; auto.
